@@ -8,7 +8,7 @@
 Generate type stubs for configurations.
 """
 import inspect
-from typing import Any, Dict, Optional, Type, Union
+from typing import Any, Dict, Optional, Type, Union, get_origin
 
 from .core import BaseField, Config, ConfigType, ConfigTypeField, Field, Schema
 from .fields import InstanceMethodField, VirtualField
@@ -34,6 +34,9 @@ def get_annotation_typestr(field: Union[BaseField, Type, str]) -> str:
         storage_type = field
     elif field is None:
         storage_type = "None"
+    elif get_origin(field) is not None:
+        # typing generic used as an annotation: typing.List[int], typing.Optional[str], ...
+        storage_type = field
     else:
         raise TypeError("Unknown storage_type: %s" % type(field))
 
